@@ -101,6 +101,16 @@ def uses_all_inputs(ctx, rule, d, r):
             ctx.hold(rule, con, d.module.rel, line_of(s), "depends on %s" % tok_text(want))
 
 
+def leaves_arguments_alone(ctx, rule, d, r):
+    """no execute body changes a list it was passed (pop / del / item store / append on the argument object itself)"""
+    con = "%s.execute::leaves-arguments-alone" % d.key
+    muts = [f for f in r.findings if f[0] == "arg-mutation"]
+    if muts:
+        ctx.violate(rule, con, d.module.rel, muts[0][1], muts[0][2])
+    else:
+        ctx.hold(rule, con, d.module.rel, d.execute.node.lineno, "list arguments are only read (or copied before they are edited)", nontrivial=False)
+
+
 def symmetric_roles(ctx, rule, d, r):
     """The list of input arrays is consumed only through symmetric aggregators, or position-preserving zips with weights."""
     from engine.arrays import Lst, Scal
